@@ -21,6 +21,15 @@ Oracle (independent of Lean): batch shape and `action_space.contains` (per row, 
 dtype as the training loops hand rows to `env.step`) for every algorithm x action kind x observation
 family with the *real* networks: training flag on/off, exploration noise on/off, eps in {0, 1/2, 1},
 single and batched observations, masks with >= 1 legal action, per-agent masks and env-defined actions.
+
+Source translation (`pre_gate`, before the Lean gate): `py2lean_action.py` translates, from the source text of the tree
+under test, the action-selection arithmetic of `get_action` of DQN (with `_get_action`), CQN, RainbowDQN, DDPG, TD3, PPO,
+of the per-agent loop body of IPPO / MADDPG / MATD3 and of `DeterministicActor.forward` / `rescale_action`,
+`StochasticActor.scale_action` (per batch row; network outputs, attributes and random draws are named inputs) into
+`lean/Gen/ActionGen.lean`; `Proofs/ActionGenEq.lean` proves the generated definitions equal to `dqnRow`, `cqnRow`,
+`cqnRowNoMask`, `maPick`, `plainPick`, `ddpgRow`, `actorOut`, `pgEvalBox`, ... of the model and `Props/C14.lean` restates
+the theorems over them (`C14_source_translation_*`).  If the translator rejects the source or those proofs stop checking,
+that is a gate problem naming the broken equality; the suites above then supply the failing input.
 """
 from __future__ import annotations
 
@@ -1907,6 +1916,18 @@ def run_sweep(chk: Check, cfgs, sink=None) -> int:
 
 
 # ============================================================================= check
+def pre_gate(chk: Check) -> None:
+    """Regenerate lean/Gen/ActionGen.lean from the source text of the learners of the tree under test (before the Lean
+    gate) and re-check `generated = model` (Proofs/ActionGenEq.lean) and the theorems over the generated definitions
+    (Props/C14.lean, `C14_source_translation_*`)."""
+    import common
+    import py2lean_action
+    common.translation_gate(chk, py2lean_action, "Gen/ActionGen.lean", ["Gen.ActionGen", "Proofs.ActionGenEq", "Props.C14"],
+                            "action-selection arithmetic of get_action of DQN / CQN / RainbowDQN / DDPG / TD3 / PPO, the "
+                            "per-agent loop body of IPPO / MADDPG / MATD3, DeterministicActor.forward / rescale_action and "
+                            "StochasticActor.scale_action")
+
+
 def run(chk: Check) -> None:
     rng = chk.rng
     chk.rule = ("stubbed networks returning dyadic q-values / head outputs / logits with ties and +-2^20; every 0/1 mask for "
